@@ -49,6 +49,33 @@ func VerifC20CorrectWith() {
 	dst := []byte{'p'}
 	out := CorrectWith(dst, src, "RR")
 	if !v.Symbolic() {
+		// native oracle: the model's pattern of valid / invalid positions, repeated until the
+		// real position list (4096 entries) overflows several times; invalid = 0xFF, valid =
+		// ASCII letters, so the reference is byte-wise replacement
+		pat := make([]byte, 0, n)
+		for i := 0; i < n; i++ {
+			if verifU.invalid[i] {
+				pat = append(pat, 0xFF)
+			} else {
+				pat = append(pat, byte('a'+i))
+			}
+		}
+		for _, k := range []int{1, 1365, 1366, 2047, 2048, 2049, 4096, 4097, 9000} {
+			var in, ref []byte
+			ref = append(ref, 'p')
+			for r := 0; r < k; r++ {
+				in = append(in, pat...)
+				for _, c := range pat {
+					if c == 0xFF {
+						ref = append(ref, 'R', 'R')
+					} else {
+						ref = append(ref, c)
+					}
+				}
+			}
+			got := CorrectWith([]byte{'p'}, in, "RR")
+			v.Assert(string(got) == string(ref), "CorrectWith differs from byte-wise replacement on a long input (position list refilled)")
+		}
 		return
 	}
 	want := []byte{'p'}
